@@ -14,6 +14,8 @@ import (
 	"github.com/sahandsafizadeh/qeep/component/losses"
 	"github.com/sahandsafizadeh/qeep/component/optimizers"
 	"github.com/sahandsafizadeh/qeep/tensor"
+
+	"qeepverif/internal/term"
 )
 
 type Tensor = tensor.Tensor
@@ -107,6 +109,7 @@ type computer interface {
 
 type Rat struct {
 	N, D int64
+	C    string // a named real constant of the specification (["c", name]) instead of a rational
 }
 
 func (r *Rat) UnmarshalJSON(b []byte) error {
@@ -114,8 +117,20 @@ func (r *Rat) UnmarshalJSON(b []byte) error {
 	if err := json.Unmarshal(b, &raw); err != nil {
 		return err
 	}
+	if len(raw) == 2 {
+		var kind string
+		if json.Unmarshal(raw[0], &kind) == nil && kind == "c" {
+			if err := json.Unmarshal(raw[1], &r.C); err != nil {
+				return err
+			}
+			if _, ok := term.ConstValue(r.C); !ok {
+				return fmt.Errorf("rat: unknown constant %q", r.C)
+			}
+			return nil
+		}
+	}
 	if len(raw) != 3 {
-		return fmt.Errorf("rat: want [\"q\",n,d], got %s", b)
+		return fmt.Errorf("rat: want [\"q\",n,d] or [\"c\",name], got %s", b)
 	}
 	if err := json.Unmarshal(raw[1], &r.N); err != nil {
 		return err
@@ -124,12 +139,19 @@ func (r *Rat) UnmarshalJSON(b []byte) error {
 }
 
 func (r Rat) MarshalJSON() ([]byte, error) {
+	if r.C != "" {
+		return json.Marshal([]any{"c", r.C})
+	}
 	return json.Marshal([]any{"q", r.N, r.D})
 }
 
 func (r *Rat) Float() float64 {
 	if r == nil {
 		return 0
+	}
+	if r.C != "" {
+		v, _ := term.ConstValue(r.C)
+		return v
 	}
 	return float64(r.N) / float64(r.D)
 }
